@@ -144,20 +144,22 @@ theorem stable_criterion (T : Tables) (S : Sim)
     (hk : ∀ d ∈ S.restarts, keysOK (scanOf T S d.nbr))
     (hp : ∀ d ∈ S.restarts, (processRestart T S d (scanOf T S d.nbr) none).err = none)
     (hl : ∀ d ∈ S.restarts, (blkOf T S d.nbr).all lineOKb = true)
-    (h1 : ∀ d ∈ S.restarts, restartNbrs (blkOf T S d.nbr) = [(d.nbr : Int)]) :
+    (h1 : ∀ d ∈ S.restarts, restartNbrs (blkOf T S d.nbr) = [(d.nbr : Int)])
+    (hdisc : ∀ r ∈ discover S.entries, (S.restarts.find? (fun d => d.nbr == r)).isSome = true) :
     Stable T S (scanOf T S) (blkOf T S) :=
-  stable_of_check T S hnd hk hp hl h1
+  stable_of_check T S hnd hk hp hl h1 hdisc
 
 /-- Snapshots: a directory to which restarts are appended later is `Stable`
 with respect to the scans and blocks of the final directory, provided each of
 its own restarts is processed without exception — appending restarts does not
 change what an earlier restart contributes. -/
-theorem stable_prefix (T : Tables) (S : Sim) (extra : List RestartDir)
-    (hfin : Stable T (extend S extra) (scanOf T (extend S extra)) (blkOf T (extend S extra)))
+theorem stable_prefix (T : Tables) (S : Sim) (extra : List RestartDir) (ents : List Str)
+    (hfin : Stable T (extend S extra ents) (scanOf T (extend S extra ents)) (blkOf T (extend S extra ents)))
     (hp : ∀ d ∈ S.restarts, S.restarts.find? (fun x => x.nbr == d.nbr) = some d ∧
-      (processRestart T S d (scanOf T S d.nbr) none).err = none) :
-    Stable T S (scanOf T (extend S extra)) (blkOf T (extend S extra)) :=
-  stable_of_prefix T S extra hfin hp
+      (processRestart T S d (scanOf T S d.nbr) none).err = none)
+    (hfS : ∀ r ∈ discover S.entries, ∃ dir, S.restarts.find? (fun d => d.nbr == r) = some dir) :
+    Stable T S (scanOf T (extend S extra ents)) (blkOf T (extend S extra ents)) :=
+  stable_of_prefix T S extra ents hfin hp hfS
 
 /-! ## T1 — the per-restart summary is what is on disk -/
 
@@ -167,12 +169,32 @@ arithmetic progression `a, a+d, …` with `n+2` terms, the catalogue line is
 iteration.  The progression hypothesis is necessary: the code reports
 `diff[0]` whatever the other differences are. -/
 theorem scan_level_faithful (fkeys : List (Str × KeyInfo)) (rl : Nat)
-    (hrl : ∀ k ∈ fkeys, k.2.rl = some rl) (hc : ∀ k ∈ fkeys, k.2.c = none) :
-    (∀ a d n, (fkeys.map fun k => k.2.it).Perm (apList a d (n + 2)) →
+    (hc : ∀ k ∈ keysAt fkeys rl, k.2.c = none) :
+    (∀ a d n, ((keysAt fkeys rl).map fun k => k.2.it).Perm (apList a d (n + 2)) →
       levelOne fkeys rl = .ok (some (.arange rl a (a + (n + 1) * d) d))) ∧
-    (∀ x, (fkeys.map fun k => k.2.it) = [x] → levelOne fkeys rl = .ok (some (.single rl x))) :=
-  ⟨fun a d n h => scan_level_faithful_lemma fkeys rl a d n hrl hc h,
-   fun x h => scan_level_single_lemma fkeys rl x hrl hc h⟩
+    (∀ x, ((keysAt fkeys rl).map fun k => k.2.it) = [x] → levelOne fkeys rl = .ok (some (.single rl x))) :=
+  ⟨fun a d n h => scan_level_faithful_lemma fkeys rl a d n hc h,
+   fun x h => scan_level_single_lemma fkeys rl x hc h⟩
+
+/-- The keys of ALL levels of a file are given (`fkeys`); the line of level
+`rl` depends only on the keys whose parsed `rl` field is exactly `rl`
+(`keysAt`), so level 1 never sees the keys of levels 10, 11, … -/
+theorem scan_level_only_own_keys (fkeys : List (Str × KeyInfo)) (rl : Nat) :
+    levelOne fkeys rl = levelOne (keysAt fkeys rl) rl :=
+  levelOne_filter fkeys rl
+
+/-- Restart discovery: a directory entry counts as a restart iff its whole
+name is `output-` followed by decimal digits (one trailing newline is what
+Python's `$` also accepts); its number is the value of the digits.  In
+particular `output-0001-active` is not a restart. -/
+theorem discover_exact (e : Str) :
+    (∀ r, matchOutput e = some r →
+      ∃ d : Str, d ≠ [] ∧ (∀ c ∈ d, isDig c = true) ∧ (e = sOutput ++ d ∨ e = sOutput ++ d ++ ['\n'])) ∧
+    (∀ d : Str, d ≠ [] → (∀ c ∈ d, isDig c = true) → e = sOutput ++ d → matchOutput e = digitsVal d) :=
+  ⟨fun _ h => matchOutput_shape h, fun d hne hd he => he ▸ matchOutput_digits d hne hd⟩
+
+example : discover [sOutput ++ ['0', '0', '0', '1'], sOutput ++ ['0', '0', '0', '1', '-', 'a', 'c', 't', 'i', 'v', 'e'],
+    ['S', 'I', 'M', 'F', 'A', 'C', 'T', 'O', 'R', 'Y'], sOutput ++ ['0', '0', '0', '0']] = [1, 0] := by decide +kernel
 
 /-! ## T4 — `get_content` cached = scanned -/
 
@@ -298,6 +320,8 @@ def exKey (it rl : Nat) : Str := formatKey ⟨['T'], ['a', 'l', 'p'], it, 0, fal
 
 def exS : Sim :=
   { simpath := ['/', 'd', '/'], simname := ['s'],
+    entries := [sOutput ++ ['0', '0', '0', '1', '-', 'a', 'c', 't', 'i', 'v', 'e'], sOutput ++ ['0', '0', '0', '1'],
+                ['S', 'I', 'M', 'F', 'A', 'C', 'T', 'O', 'R', 'Y'], sOutput ++ ['0', '0', '0', '0']],
     restarts := [
       { nbr := 0, files := [{ name := ['a', 'l', 'p', '.', 'h', '5'], keys := [exKey 0 0, exKey 2 0, exKey 4 0], hashOrder := [] },
                            { name := formatCheckpoint 4 none, keys := [], hashOrder := [] }] },
@@ -319,11 +343,17 @@ example :
 restart 1 appears, `iterations(skip_last=True)` (nothing new), then
 `iterations(skip_last=False)`: same file and same result as one fresh scan of
 the final directory -/
-def exS0 : Sim := { exS with restarts := exS.restarts.take 1 }
+def exS0 : Sim := { exS with restarts := exS.restarts.take 1, entries := [sOutput ++ ['0', '0', '0', '0']] }
 
 theorem exS0_stable : Stable exT exS0 (scanOf exT exS) (blkOf exT exS) := by
-  have h : extend exS0 (exS.restarts.drop 1) = exS := rfl
-  have := stable_prefix exT exS0 (exS.restarts.drop 1) (h ▸ exS_stable) (by decide +kernel)
+  have h : extend exS0 (exS.restarts.drop 1) exS.entries = exS := rfl
+  have := stable_prefix exT exS0 (exS.restarts.drop 1) exS.entries (h ▸ exS_stable) (by decide +kernel)
+    (by
+      have hd : discover exS0.entries = [0] := by decide +kernel
+      intro r hr
+      rw [hd] at hr
+      simp at hr; subst hr
+      exact ⟨_, rfl⟩)
   rw [h] at this
   exact this
 
